@@ -43,6 +43,7 @@ class Env:
         e.live = self.live
         e.point = self.point
         e.loop_iter = getattr(self, 'loop_iter', None)
+        e.in_old = getattr(self, 'in_old', False)
         return e
 
 
@@ -164,6 +165,15 @@ class SpecEval:
             for r, v in zip(fr.fn.results, rs):
                 if r['n'] == name:
                     return v
+        # a variable whose address is taken lives in a cell (Alloc commented with its name): its current
+        # value is the content of the cell (for parameters: outside old() only)
+        pt = getattr(env, 'point', None)
+        if not (getattr(env, 'in_old', False) and (name in fr.params or name in fr.fvs)):
+            cells = [ins for ins in fr.fn.cells().get(name, ()) if ins['reg'] in fr.regs]
+            if cells:
+                ins = sorted(cells, key=lambda x: int(x['reg'][1:]) if x['reg'][1:].isdigit() else 0)[-1]
+                v = fr.regs[ins['reg']]
+                return self.ex.load(env.st, self.ex.ptr_of(v))
         if name in fr.params:
             return fr.params[name]
         if name in fr.fvs:
@@ -416,7 +426,9 @@ class SpecEval:
         if name == 'old':
             if env.old is None:
                 raise SpecError('old() outside a postcondition')
-            return self.eval(args[0], env.with_state(env.old))
+            e2 = env.with_state(env.old)
+            e2.in_old = True
+            return self.eval(args[0], e2)
         if name == 'atloop':
             return self.eval(args[0], env.with_state(env.loop_entry))
         if name == 'athead':
